@@ -340,6 +340,8 @@ class _Formal:
 _Formal.is_output = lambda self: None
 _Formal.__ilshift__ = lambda self, v: None
 I.register_model(_Formal.is_output, lambda it, self: self.fields["f_out"])
+_Formal.is_input = lambda self: None
+I.register_model(_Formal.is_input, lambda it, self: self.fields.get("f_in", not self.fields["f_out"]))
 
 
 def _formal_assign(it, self, value):
@@ -414,12 +416,16 @@ SCENARIOS = {
     "narrower-vector-actual": ([("a", False), ("y", True)], {"a": "narrow", "y": "sig"}),
     "narrower-vector-actual-on-output": ([("a", False), ("y", True)], {"a": "sig", "y": "narrow"}),
     "scalar-ports": ([("a", False), ("y", True)], {"a": "scalar", "y": "scalar"}),
+    # an INOUT port needs a definition like an input and does not take the default away from the connected object (C04: that
+    # object is still reset by the context that drives it, and keeps its power-up value)
+    "inout-port": ([("a", False), ("io", "inout")], {"a": "sig", "io": "sig"}),
+    "inout-port-missing": ([("a", False), ("io", "inout")], {"a": "sig"}),
 }
 
 
 def entity_shape(formals, call):
     def make(env):
-        ports = {n: SObj(_Formal, f_name=n, f_out=o, _default="DECL-DEFAULT") for n, o in formals}
+        ports = {n: SObj(_Formal, f_name=n, f_out=o is True, f_in=o is False, _default="DECL-DEFAULT") for n, o in formals}  # o: False = input, True = output, "inout"
         for n, p in ports.items():
             p.fields["width"] = None if call.get(n) == "scalar" else 4
         info = SObj(_Info, name="ent", attributes={}, extern=True, instantiated=None, ports=ports, generics={}, architecture=None)
@@ -466,7 +472,7 @@ def init_spec(formals, call):
                 if defs[n] is not a or real_self.fields.get(n) is not a:
                     return False  # exactly the actual passed for this formal
                 root = a.fields["_root"]
-                if is_out:
+                if is_out is True:  # (an inout port shares a resolved bus with the other drivers: the connected object keeps its default)
                     if a.fields["_default"] is not None:
                         return False  # an instance output drives it: no default on the driven object
                     if root is not a and root.fields["_default"] is None:
